@@ -274,6 +274,65 @@ fn cache_table(cache: &FxCache, curs: &[Currency]) -> BTreeMap<(String, i32, u32
     t
 }
 
+/// One rates file whose rows are every sequence of at most 3 rows over a 7-row menu (good, zero, negative and
+/// unparsable rates of two currencies, one currency possibly listed several times): a file with any non-positive or
+/// unparsable rate must be refused wherever that row stands; otherwise every currency listed once must be served at
+/// its rate (which of several positive rows of one currency wins is not part of the statement).
+fn row_sequences(ctx: &Ctx, acc: &mut Acc) {
+    let rows: [(&str, &str, bool); 7] = [("USD", "1.5", true), ("USD", "1.75", true), ("USD", "0", false), ("USD", "-1.3", false), ("USD", "abc", false), ("EUR", "1.25", true), ("EUR", "0.0", false)];
+    let mut seqs: Vec<Vec<usize>> = vec![];
+    for a in 0..rows.len() {
+        seqs.push(vec![a]);
+        for b in 0..rows.len() {
+            seqs.push(vec![a, b]);
+            for c in 0..rows.len() {
+                seqs.push(vec![a, b, c]);
+            }
+        }
+    }
+    let part = seqs.par_iter().fold(Acc::new, |mut acc, s| {
+        let chosen: Vec<(&str, &str)> = s.iter().map(|&i| (rows[i].0, rows[i].1)).collect();
+        let all_good = s.iter().all(|&i| rows[i].2);
+        let content = xml("01/Oct/2024 to 31/Oct/2024", &chosen);
+        let rf = RateFile { name: std::path::PathBuf::from("/somewhere/2024-10.xml"), modified: Some(UNIX_EPOCH + Duration::from_secs(1000)), xml: content };
+        acc.states += 1;
+        acc.validated += 1;
+        acc.bump("rates-file-row-sequences");
+        let input = || Input::Json(json!({"folder_files": ["2024-10.xml"], "rows": chosen}));
+        let cx = json!({"profile": "rates-file-row-sequences"});
+        match std::panic::catch_unwind(std::panic::AssertUnwindSafe(|| load_cache_with_overrides(vec![rf]))) {
+            Err(p) => acc.violation(&ctx.findings, "C08", Violation { clause: "panic".into(), input: input(), detail: mcx::observe::panic_msg(p), context: cx }),
+            Ok(Err(e)) => {
+                if all_good {
+                    acc.violation(&ctx.findings, "C08", Violation { clause: "good-folder-refused".into(), input: input(), detail: e.to_string(), context: cx });
+                } else {
+                    acc.bump("rows:bad-row-refused");
+                }
+            }
+            Ok(Ok(cache)) => {
+                if !all_good {
+                    acc.violation(&ctx.findings, "C08", Violation { clause: "bad-rates-file-accepted".into(), input: input(), detail: "a rates file with a non-positive or unparsable rate in one of its rows was accepted".into(), context: cx });
+                    return acc;
+                }
+                for (code, cur) in [("USD", Currency::USD), ("EUR", Currency::EUR)] {
+                    let listed: Vec<&str> = chosen.iter().filter(|(c, _)| *c == code).map(|(_, r)| *r).collect();
+                    let got = cache.get(cur, 2024, 10).map(|e| e.rate_per_gbp);
+                    let ok = match listed.len() {
+                        0 => true,
+                        _ => got.map(|g| listed.iter().any(|r| dec(r) == g)).unwrap_or(false),
+                    };
+                    if !ok {
+                        acc.violation(&ctx.findings, "C08", Violation { clause: "overlay-differs".into(), input: input(), detail: format!("{code} 2024-10: cache serves {got:?}, the file lists {listed:?}"), context: cx.clone() });
+                    }
+                }
+            }
+        }
+        acc
+    }).reduce(Acc::new, Acc::merge);
+    let merged = Acc::merge(std::mem::take(acc), part);
+    *acc = merged;
+}
+
 fn folder_configs(ctx: &Ctx, env: &Env, acc: &mut Acc) {
     let files = menu();
     let curs = all_currencies();
@@ -478,6 +537,7 @@ pub fn c08(tier: Tier) -> i32 {
         acc = Acc::merge(acc, part);
     }
     folder_configs(&ctx, &env, &mut acc);
+    row_sequences(&ctx, &mut acc);
     cli_fx(&ctx, &env, &mut acc);
     for k in ["table:converted", "table:missing-refused", "twin-both-accepted", "shape:needed-rate-missing", "shape:two-months-in-one-ledger", "folder:overlay-compared", "folder:bad-file-refused", "cli:--fx-folder"] {
         ctx.require(acc.get(k) > 0, &format!("nothing exhibited {k}"));
